@@ -456,6 +456,68 @@ impl std::fmt::Display for Talkative {
     }
 }
 
+/// Rotations in quick succession, then shutdown, with the cleanup in its background thread: every
+/// schedule (<= 2 / 3 preemptions) must let shutdown() return. A cleanup thread that misses the
+/// request to end (or waits for something no hook announces) shows as a deadlock.
+fn shutdown_with_pending_cleanup(tier: &str, out: &mut Out) {
+    use crate::sched::{self, Abort, SchedCfg};
+    use std::sync::Arc;
+    let cfg = SchedCfg {
+        ignore: vec!["flw_pool_pop", "flw_pool_push", "std_pool_pop", "std_pool_push", "open", "rename", "symlink_remove", "symlink_create", "write", "flush", "cleanup_remove"],
+        detect_real_blocking: true,
+        ..SchedCfg::default()
+    };
+    let body: Arc<dyn Fn(&Arc<sched::Sched>) -> Result<(), String> + Send + Sync> = Arc::new(move |_s: &Arc<sched::Sched>| {
+        let env = Env::in_current("c10c");
+        let mut cfg = Cfg::rot(CritK::Size(15), NamingK::Numbers, CleanK::Log(1));
+        cfg.bg_cleanup = true;
+        let (logger, handle) = cfg.logger(&env.dir, &env.err).build().map_err(|e| e.to_string())?;
+        for i in 0..4 {
+            lg::log_info(&*logger, &lg::payload(0, i, 19));
+        }
+        handle.shutdown();
+        drop(logger);
+        drop(handle);
+        Ok(())
+    });
+    let mut bad: Option<(String, Vec<usize>)> = None;
+    let mut machinery: Option<String> = None;
+    let clock = || Some(crate::hooks::VClock::new(crate::hooks::base_instant()));
+    let stats = sched::explore(&cfg, Some(if tier == "quick" { 2 } else { 3 }), 50_000, &clock, body, &mut |choices, ex| {
+        if ex.stalled {
+            machinery = Some(format!("execution stalled; schedule {choices:?}"));
+            return false;
+        }
+        match (&ex.abort, &ex.obs) {
+            (Some(Abort::Diverged(m)), _) => {
+                machinery = Some(format!("replay diverged: {m}; schedule {choices:?}"));
+                false
+            }
+            (Some(Abort::Deadlock(d)), _) => {
+                bad = Some((format!("deadlock: {d}"), choices.to_vec()));
+                false
+            }
+            (None, Some(Err(e))) => {
+                bad = Some((e.clone(), choices.to_vec()));
+                false
+            }
+            _ => true,
+        }
+    });
+    out.evaluations += stats.schedules;
+    out.transitions += stats.choice_points;
+    out.count("shutdown_with_pending_cleanup_schedules", stats.schedules);
+    out.nontrivial(&("sched-cleanup-shutdown", 0));
+    if let Some(m) = machinery {
+        out.violation(Violation::new("machinery", "scheduler", format!("rotations then shutdown with background cleanup: {m}"), json!({"kind": "sched-cleanup-shutdown"})));
+    } else if let Some((d, sch)) = bad {
+        out.outcome("hang");
+        out.violation(Violation::new("hang", "shutdown-with-pending-cleanup".to_string(), format!("four rotating records, then shutdown(), cleanup in the background thread; schedule {sch:?}: {d}"), json!({"kind": "sched-cleanup-shutdown", "schedule": sch})));
+    } else {
+        out.outcome("ok");
+    }
+}
+
 /// One thread logs a record whose Display implementation logs itself, another thread changes the
 /// specification: every schedule (<= 2 preemptions) must let both finish. A lock held across the
 /// user's formatting code shows as a deadlock (the scheduler sees both threads blocked for real).
@@ -660,6 +722,7 @@ fn run_unit(tier: &str, unit: usize, out: &mut Out) {
     }
     if u > n_prepop_units() {
         recursion_vs_reconfiguration(tier, out);
+        shutdown_with_pending_cleanup(tier, out);
         return;
     }
     // (iii) + (vii)
